@@ -590,14 +590,18 @@ class ExcelInPython:
         if err_value:
             return err_value
 
-        return min(self._only_numeric_list(flatten_list))
+        # no number among the arguments: Excel answers 0 (the builtin would raise ValueError)
+        numbers = self._only_numeric_list(flatten_list)
+        return min(numbers) if numbers else 0
 
     def _max(self, flatten_list: List):
         err_value = self._find_error_in_list(flatten_list)
         if err_value:
             return err_value
 
-        return max(self._only_numeric_list(flatten_list))
+        # no number among the arguments: Excel answers 0 (the builtin would raise ValueError)
+        numbers = self._only_numeric_list(flatten_list)
+        return max(numbers) if numbers else 0
 
     def _day(self, date: datetime.datetime):
         return date.day
